@@ -568,7 +568,22 @@ class State:
         if not (cond.get("kind") == "BinaryOperator" and cond.get("opcode") in ("<", "<=") and _unwrap(cast.kids(cond)[0]).get("referencedDecl", {}).get("name") == var):
             raise AnalysisError(f"{self.ex.where}::{self.fname}: for-loop condition {cast.text(cond)}")
         hi = self.expr(cast.kids(cond)[1]) + (1 if cond.get("opcode") == "<=" else 0)
-        if inc.get("kind") != "UnaryOperator" or inc.get("opcode") != "++":
+        def _unit_step(x):
+            """i++, ++i, i += 1, i = i + 1 (all the same step)"""
+            if x.get("kind") == "UnaryOperator" and x.get("opcode") == "++":
+                return _unwrap(cast.kids(x)[0]).get("referencedDecl", {}).get("name") == var
+            if x.get("kind") == "CompoundAssignOperator" and x.get("opcode") == "+=":
+                l_, r_ = cast.kids(x)
+                return _unwrap(l_).get("referencedDecl", {}).get("name") == var and _unwrap(r_).get("kind") == "IntegerLiteral" and _unwrap(r_).get("value") == "1"
+            if x.get("kind") == "BinaryOperator" and x.get("opcode") == "=":
+                l_, r_ = cast.kids(x)
+                r_ = _unwrap(r_)
+                if _unwrap(l_).get("referencedDecl", {}).get("name") == var and r_.get("kind") == "BinaryOperator" and r_.get("opcode") == "+":
+                    a_, b_ = (_unwrap(y) for y in cast.kids(r_))
+                    return {a_.get("referencedDecl", {}).get("name"), b_.get("value")} == {var, "1"} or {b_.get("referencedDecl", {}).get("name"), a_.get("value")} == {var, "1"}
+            return False
+
+        if not _unit_step(inc):
             raise AnalysisError(f"{self.ex.where}::{self.fname}: for-loop increment")
         if lo.is_Integer and hi.is_Integer and hi - lo <= 32:
             for v in range(int(lo), int(hi)):
